@@ -497,6 +497,16 @@ class MdibReplayer:
         self.mgr.write_entity(ent)
         self.handed[('E', rec['h'])] = ent
 
+    def _do_WriteEntities(self, rec):
+        ents = []
+        for h in rec['hs']:
+            ent = self.mdib.entities.by_handle(self.conc(h))
+            apply_tok(ent.state, rec['t'])
+            ents.append(ent)
+        self.mgr.write_entities(ents)
+        for h, ent in zip(rec['hs'], ents):
+            self.handed[('E', h)] = ent
+
     # ---- an entity object the application obtained between two transactions and keeps
     def _do_KeepEntity(self, rec):
         self.kept = self.mdib.entities.by_handle(self.conc(rec['h']))
